@@ -30,6 +30,9 @@ def S(name, threads, pool_max=0, queues=1, R=3, B=14, oracles=(), order=None, po
 BASE = ('panic', 'overlap', 'ran_twice')
 
 def scenarios(prop, tier, seed=0):
+    return rotate_orders(_scenarios(prop, tier, seed), seed)
+
+def _scenarios(prop, tier, seed=0):
     q = tier == 'quick'
     L = []
     GATE = {'acts': ['enter', ('gate', 0), 'exit']}
@@ -45,6 +48,7 @@ def scenarios(prop, tier, seed=0):
         if not q:
             L.append(S('c09_p1_sync_try_desync', [T('A', ('sync', 0)), T('B', ('try_sync', 0)), T('C', ('desync', 0))],
                        pool_max=1, R=3, B=14, oracles=BASE + ('results', 'deadlock', 'quiescent_complete')))
+            L += matrix('C09', lambda a, b, P: BASE + ('results', 'deadlock') + (('quiescent_complete',) if P else ()), want=lambda a, b, P: 'try' in (a, b))
             L.append(S('c09_p1_fut_try', [T('A', ('future_desync', 0, {'fut': ('gate', 0), 'as': 'f'}), ('detach', 'f')), T('B', ('try_sync', 0)), T('W', ('open_gate', 0))],
                        pool_max=1, R=3, B=14, oracles=BASE + ('results', 'deadlock', 'quiescent_complete')))
     elif prop == 'C03':
@@ -66,6 +70,7 @@ def scenarios(prop, tier, seed=0):
                        oracles=BASE + ('quiescent_complete',)))
             L.append(S('c03_p2_three_queues', [T('A', ('desync', 0)), T('B', ('desync', 1)), T('C', ('desync', 2))], pool_max=2, queues=3, R=3, B=14,
                        oracles=BASE + ('quiescent_complete',)))
+            L += matrix('C03', lambda a, b, P: BASE + ('quiescent_complete',), pools=(1,))
     elif prop == 'C04':
         L.append(S('c04_p0_sync_sync_desync', [T('A', ('sync', 0)), T('B', ('sync', 0)), T('C', ('desync', 0))], pool_max=0, R=3, B=14,
                    oracles=BASE + ('results', 'deadlock')))
@@ -87,6 +92,7 @@ def scenarios(prop, tier, seed=0):
                        oracles=BASE + ('results', 'deadlock')))
             L.append(S('c04_p1_two_objects', [T('A', ('desync', 0, GATE)), T('B', ('sync', 0)), T('C', ('sync', 1)), T('W', ('open_gate', 0))],
                        pool_max=1, queues=2, R=3, B=14, oracles=BASE + ('results', 'deadlock')))
+            L += matrix('C04', lambda a, b, P: BASE + ('results', 'deadlock'), want=lambda a, b, P: 'sync' in (a, b))
     elif prop == 'C01':
         L.append(S('c01_p1_desync_sync', [T('A', ('desync', 0)), T('B', ('sync', 0))], pool_max=1, R=3, B=14, oracles=BASE))
         L.append(S('c01_p1_desync_try', [T('A', ('desync', 0)), T('B', ('try_sync', 0))], pool_max=1, R=3, B=14, oracles=BASE))
@@ -97,6 +103,7 @@ def scenarios(prop, tier, seed=0):
             L.append(S('c01_p1_desync2_sync', [T('A', ('desync', 0), ('desync', 0)), T('B', ('sync', 0))], pool_max=1, R=3, B=16, oracles=BASE))
             L.append(S('c01_p1_fut_sync', [T('A', ('future_desync', 0, {'fut': ('gate', 0), 'as': 'f'}), ('detach', 'f')), T('B', ('sync', 0)), T('W', ('open_gate', 0))],
                        pool_max=1, R=3, B=14, oracles=BASE))
+            L += matrix('C01', lambda a, b, P: BASE)
     elif prop == 'C02':
         L.append(S('c02_p1_desync_desync', [T('A', ('desync', 0), ('desync', 0))], pool_max=1, R=3, B=14, oracles=BASE + ('order',)))
         L.append(S('c02_p0_sync_desync_sync', [T('A', ('sync', 0)), T('B', ('desync', 0), ('sync', 0))], pool_max=0, R=3, B=14, oracles=BASE + ('order',)))
@@ -105,6 +112,7 @@ def scenarios(prop, tier, seed=0):
         if not q:
             L.append(S('c02_p1_desync_desync_sync', [T('A', ('desync', 0), ('desync', 0)), T('B', ('sync', 0))], pool_max=1, R=3, B=16, oracles=BASE + ('order',)))
             L.append(S('c02_p1_desync_try_sync', [T('A', ('desync', 0), ('try_sync', 0)), T('B', ('sync', 0))], pool_max=1, R=3, B=16, oracles=BASE + ('order',)))
+            L += matrix('C02', lambda a, b, P: BASE + ('order',))
     elif prop == 'C10':
         L.append(S('c10_p2_gate_other', [T('A', ('desync', 0, GATE)), T('B', ('desync', 1))], pool_max=2, queues=2, R=(2 if q else 3), B=16,
                    oracles=BASE + ('independent',), witness='ungated_done'))
@@ -262,6 +270,56 @@ def scenarios(prop, tier, seed=0):
         # the output is dropped while a second poll job (woken by item 0 arriving) is in the middle of its loop; the input then stays silent (gate 5 is never opened)
         L.append(S('c16_p1_drop_midloop', [T('A', ('p_new', 'x'), ('pipe', 'x', {'gates': [0, 5], 'ends': False, 'as': 'ps'}), ('s_drop', 'ps'), ('p_drop', 'x')), T('W', ('open_gate', 0))],
                    pool_max=1, queues=0, seq='A P0 A W P0 A P0', B=44, oracles=OR16))
+    return L
+
+
+# ---------------------------------------------------------------------------------------------------------------------------------
+# Thorough tier: a systematic matrix of two-caller programs over the operation kinds (the "programs" part of the quantifiers).
+# Every unordered pair of kinds on one object, pool maximum 0 and 1; gated futures get a waker thread W that opens their gates
+# at solver-chosen points.  The same programs serve several properties, each with its own oracles.
+MX_KINDS = ('desync', 'sync', 'try', 'fdes', 'fdes_await', 'fsync')
+
+def mx_ops(kind, th, q, gate):
+    v = 'f' + th
+    if kind == 'desync': return [('desync', q)], None
+    if kind == 'sync': return [('sync', q)], None
+    if kind == 'try': return [('try_sync', q)], None
+    if kind == 'fdes': return [('future_desync', q, {'fut': ('gate', gate), 'as': v}), ('detach', v)], gate
+    if kind == 'fdes_await': return [('future_desync', q, {'fut': 'ready', 'as': v}), ('block_on', v)], None
+    if kind == 'fsync': return [('future_sync', q, {'fut': 'ready', 'as': v}), ('block_on', v)], None
+    raise KeyError(kind)
+
+def matrix(prop, oracles_for, pools=(0, 1), want=None, R=3, B=14, seed=0):
+    """two callers A and B, one operation each on object 0; `want(ka, kb, P)` filters; `oracles_for(ka, kb, P)` gives the oracles"""
+    L = []
+    for i, ka in enumerate(MX_KINDS):
+        for kb in MX_KINDS[i:]:
+            for P in pools:
+                if want is not None and not want(ka, kb, P): continue
+                opsa, ga = mx_ops(ka, 'A', 0, 0); opsb, gb = mx_ops(kb, 'B', 0, 1)
+                ths = [T('A', *opsa), T('B', *opsb)]
+                gates = [g for g in (ga, gb) if g is not None]
+                if gates: ths.append(T('W', *[('open_gate', g) for g in gates]))
+                # a detached operation needs a pool thread to finish (C07: "given at least one pool thread")
+                if P == 0 and 'fdes' in (ka, kb) and not ('sync' in (ka, kb)): continue
+                heavy = sum(k in ('fdes', 'fdes_await', 'fsync') for k in (ka, kb))
+                orc = tuple(oracles_for(ka, kb, P))
+                # with no pool thread an awaited future operation is only promised to complete when its polling task is the single context
+                # using the queue (C07: "pool size 0 with a single context"; C08: "pool size 0 for the await-to-completion cases only"):
+                # with a second caller the liveness oracles would demand more than the properties state, the safety oracles stay
+                if P == 0 and heavy: orc = tuple(o for o in orc if o not in ('deadlock', 'quiescent_complete', 'fut_results'))
+                L.append(S('%s_mx_p%d_%s_%s' % (prop.lower(), P, ka, kb), ths, pool_max=P, R=R, B=B + 2 * heavy, oracles=orc))
+    return L
+
+def rotate_orders(L, seed):
+    """VERIF_SEED > 0: generic scenarios (no explicit slot sequence or thread order) run with the thread order rotated by `seed`,
+    which covers a different set of schedules for the same R and B"""
+    if not seed: return L
+    for s_ in L:
+        if s_['seq'] is None and s_['order'] is None:
+            sc_ = s_['scen']; n = len([t for t in sc_['threads'] if not t.get('final')]) + sc_.get('pool_slots', sc_['pool_max']); k = seed % n
+            if k:
+                s_['order'] = [(j + k) % n for j in range(n)]; s_['bounds'] = dict(s_['bounds'], thread_order=s_['order'])
     return L
 
 def bounds_text(prop, tier):
